@@ -9,6 +9,7 @@ Decided (structural necessary conditions; the relation parse(fmt(x)) ~ parse(x) 
                writer only through an escaping function; raw byte printing excludes delimiter and backslash
   5 FLOATKIND  the Float literal arm renders through a float-preserving formatter
   6 LINESEP    every statement / declaration formatter ends its line (two statements never share a line)
+  7 SRCTEXT    the formatter lexes exactly the text it was given (no pre-processing between the parameter and lex)
 """
 from engines import (AST, adts_with_prefix, arm_regions, body_and_closures, callee_generic, callee_name, const_str, cover,
                      discr_switches, enum_table, exhaust, guarded_results, is_span_field, op_place,
@@ -131,6 +132,7 @@ def run(facts, rep, tier):
 
     # 5 FLOATKIND
     floatkind(F, rep)
+    tuple1(F, rep)
 
     # 6 LINESEP
     linesep(F, rep, fm)
@@ -547,6 +549,86 @@ def floatkind(F, rep):
                         "re-parses as an int literal (the numeric kind, and so `/`-vs-`//` typing, changes)"
                         % ("f64: Display (to_string)" if display_only else "a renderer that is not float-preserving"),
                         file=fl.file, line=sw["ln"], fn=fl.path))
+
+
+def tuple1(F, rep):
+    """TUPLE1 — a one-element tuple is the only literal whose brackets alone do not identify it: `(x)` is a
+    parenthesised expression (Expr::Paren), `(x,)` is the tuple. The Tuple arm of format_expr therefore has to write a
+    comma on the path where the tuple has exactly one element — a `len() == 1` test inside the arm with a `","` write
+    on its true edge (or an unconditional trailing comma)."""
+    fe = F.one_fn("Formatter::format_expr")
+    if not rep.anchor("TUPLE1", "Formatter::format_expr", fe):
+        return
+    sw = primary_dispatch(fe, AST + "Expr")
+    regs = arm_regions(fe, sw) if sw else {}
+    reg = regs.get("Tuple")
+    if not rep.anchor("TUPLE1", "Expr::Tuple arm of format_expr", reg):
+        return
+    from c09 import bool_edges
+    ok = False
+    how = "no `len() == 1` test with a comma write in the arm or in the helpers it calls"
+    scopes = [(fe, set(reg))]
+    for b in reg:
+        t = fe.term(b)
+        n = callee_name(t) if t["t"] == "call" else None
+        if n and n in F.fns and "Formatter" in n and n != fe.path:
+            g = F.fns[n]
+            scopes.append((g, set(range(len(g.blocks)))))
+    for g, blocks in scopes:
+        lens = {t["d"]["l"] for b in blocks for t in [g.term(b)] if t["t"] == "call" and
+                (callee_generic(t) or "").endswith("::len") and not t["d"]["p"]}
+        for b in blocks:
+            for st in g.stmts(b):
+                if st["s"] != "assign" or st["rv"]["r"] != "bin" or st["rv"]["op"] != "Eq" or st["d"]["p"]:
+                    continue
+                a, c = st["rv"]["a"], st["rv"]["b"]
+                pa = op_place(a)
+                one = c.get("c", "").split("_")[0] == "1"
+                if not (one and pa is not None and not pa["p"] and
+                        (pa["l"] in lens or any(x in lens for x in _copies_of(g, pa["l"])))):
+                    continue
+                under = set()
+                for (x, y) in bool_edges(g, st["d"]["l"], True):
+                    under |= blocks_dominated_by_edge_(g, x, y)
+                for b2 in under:
+                    t = g.term(b2)
+                    if t["t"] == "call" and (callee_name(t) or "").endswith("FormatWriter::write") and \
+                            len(t["args"]) > 1 and (const_str(t["args"][1]) or _resolve(g, t["args"][1])) == ",":
+                        ok = True
+                        how = "`len() == 1` guards a write of \",\" in %s" % g.path.split("::")[-1]
+    rep.oblige("TUPLE1", "Expr::Tuple:singleton-comma", ok, sample={"rule": "TUPLE1", "holds": ok, "how": how})
+    if not ok:
+        rep.add(Finding("TUPLE1", "TUPLE1|format_expr|Expr::Tuple",
+                        "the Tuple arm of format_expr never writes the trailing comma of a one-element tuple (%s): "
+                        "`(x,)` is printed as `(x)`, which parses back as a parenthesised expression, not a tuple"
+                        % how, file=fe.file, line=sw["ln"], fn=fe.path))
+
+
+def _copies_of(f, l, depth=4):
+    out = set()
+    for _ in range(depth):
+        d = f.single_def(l)
+        if d is None or d[2] != "assign" or d[3]["r"] not in ("use", "cast"):
+            break
+        pl = op_place(d[3]["o"])
+        if pl is None or pl["p"]:
+            break
+        l = pl["l"]
+        out.add(l)
+    return out
+
+
+def _resolve(f, o):
+    from engines import resolve_str
+    try:
+        return resolve_str(f, o)
+    except Exception:
+        return None
+
+
+def blocks_dominated_by_edge_(f, a, b):
+    from engines import blocks_dominated_by_edge
+    return blocks_dominated_by_edge(f, a, b)
 
 
 def linesep(F, rep, fm):
